@@ -371,6 +371,8 @@ type execReply struct {
 	Stopped  bool   `json:"alloc_stopped,omitempty"` // abandoned while running: over the allocation budget
 	Contain  string `json:"contain,omitempty"`       // containment verdict ("" = held or not checked)
 	Harness  string `json:"harness,omitempty"`       // harness-side problem
+	// Malformed: the returned inventory holds a nil package entry
+	Malformed string `json:"malformed,omitempty"`
 }
 
 type execRequest struct {
@@ -426,6 +428,7 @@ func serveCase(r execRequest) execReply {
 	}
 	rep.Pkgs, rep.Panicked, rep.PanicVal, rep.Site, rep.Stack = res.Pkgs, res.Panicked, res.PanicVal, res.Site, res.Stack
 	rep.DurNS, rep.Alloc, rep.Stopped = int64(res.Dur), res.Alloc, res.AllocStopped
+	rep.Malformed = res.Malformed
 	if res.Err != nil {
 		rep.HasErr, rep.Err = true, res.Err.Error()
 	}
@@ -798,6 +801,11 @@ func propC02(c c02Case) (ev.Outcome, error) {
 		col.Note("budget overrun not reproduced in isolation (inconclusive, not a violation): %s %s: %s / isolated: %s", c.Extractor, c.Path, what, detail)
 		out.Classes = append(out.Classes, "overrun_unconfirmed")
 		return out, nil
+	}
+	if r.Malformed != "" {
+		// the scan engine dereferences every returned package (it sets Package.Extractor):
+		// a nil entry panics the whole scan and loses every other file's results
+		return out, fmt.Errorf("%s on %s (%d bytes): %s", c.Extractor, c.Path, len(data), r.Malformed)
 	}
 	if r.Contain != "" {
 		out.Classes = append(out.Classes, "containment_scan")
